@@ -28,16 +28,32 @@ META = dict(
          "associative (concat_assoc, concat_assoc_of_truthy) with the empty result as right identity always and left "
          "identity (concat_empty_right/left), sum() is the left fold (sum_is_fold) — under the exact side condition of "
          "C10.iadd_refines_iff; outside it associativity is false (concat_assoc_fails_witness, registered finding "
-         "concat_assoc_falsy_listall). PARTIAL: the aliasing clauses (mutating a copy never changes the original; nested "
-         "groups for deepcopy) and from_dict are NOT proved in Lean (no heap model yet): they are decided by the "
-         "mutate-then-compare oracle on the real class only; registered finding deepcopy_named_group_aliased "
-         "(ParseResults.deepcopy() leaves named nested groups shared with the original).",
+         "concat_assoc_falsy_listall). Aliasing, heap model (PPProofs/Props/C11Heap.lean; list cells, dict cells, "
+         "occurrence-list cells, objects with identity): frame_step/frame_all (any sequence of own-token/own-name "
+         "mutations of an object leaves the view of every object with separate list and dict cell unchanged, although "
+         "occurrence lists are shared and rewritten in place), copy_frame and copyModule_frame (copy() and the "
+         "copy-module/pickle protocol: the copy shows the original's view; mutating either side never changes the other) "
+         "— full strength on the model for all heaps/objects/mutation sequences. PARTIAL: deepcopy()/copy.deepcopy/"
+         "pickle of nested groups are not proved (only the one-level deepcopy1 witness "
+         "deepcopy_named_group_aliased_witness = registered finding deepcopy_named_group_aliased: deepcopy() leaves "
+         "named nested values shared with the original); from_dict is not modelled. Those clauses are decided by the "
+         "mutate-then-compare / round-trip oracles on the real class only.",
     note="Trusted: Lean kernel; axioms propext/Classical.choice/Quot.sound; the value model of results.py (C10) and the "
-         "transcription of copy()/__getstate__/__setstate__/__add__/__radd__; CPython copy/pickle protocol dispatch is "
-         "assumed, not modelled; aliasing and from_dict clauses are oracle-checked only (no proof).",
+         "transcription of copy()/__getstate__/__setstate__/__add__/__radd__; the heap model (PRHeap.lean) is tied to the "
+         "class only by a 30-cell sharing table (3 kinds of copy x 10 probes) and by the frame oracle; CPython copy/pickle "
+         "protocol dispatch is assumed, not modelled; deep kinds and from_dict are oracle-checked only (no proof).",
     technique="Lean 4 proof on the value model + differential copies/concatenations + mutate-then-compare oracle",
     design="§5 C11",
 )
+
+HEAP_THEOREMS = [
+    "PP.PRHeap.frame_step",
+    "PP.PRHeap.frame_all",
+    "PP.PRHeap.copy_frame",
+    "PP.PRHeap.copyModule_frame",
+    "PP.PRHeap.fixOccs_fst",
+    "PP.PRHeap.deepcopy_named_group_aliased_witness",
+]
 
 THEOREMS = [
     "PP.PR.copy_preserves",
@@ -336,11 +352,46 @@ def from_dict_check(pp, d):
     return None if _plain(got) == _plain(d) and got == d else _plain(got)
 
 
+# ---- sharing table: heap model (PPModel/Mod/PRHeap.lean `sharing`) vs the real class ------------------------
+SHARE_KINDS = ["copy", "copy.copy", "deepcopy"]
+SHARE_PROBES = ["own-append", "own-setname", "own-deltok", "own-insert", "own-delname", "own-clear", "orig-append",
+                "orig-setname", "nested-via-token", "nested-via-name"]
+
+
+def sharing_real(pp, kind, probe):
+    """on the real class: outer result [<inner group>, 'b'] with g -> <inner>, x -> 'b'; does the probe, applied after
+    copying, change what the other side shows?"""
+    r = prlib.parse_start(pp, "group", "a 0 b")
+    c = make_copy(r, kind)
+    watch, snap = (c, snapshot(pp, c)) if probe.startswith("orig-") else (r, snapshot(pp, r))
+    if probe == "own-append":
+        c.append("z")
+    elif probe == "own-setname":
+        c["x"] = "new"
+    elif probe == "own-deltok":
+        del c[0]
+    elif probe == "own-insert":
+        c.insert(0, "z")
+    elif probe == "own-delname":
+        del c["g"]
+    elif probe == "own-clear":
+        c.clear()
+    elif probe == "orig-append":
+        r.append("z")
+    elif probe == "orig-setname":
+        r["x"] = "new"
+    elif probe == "nested-via-token":
+        c[0].append("z")
+    elif probe == "nested-via-name":
+        c["g"].append("z")
+    return snapshot(pp, watch) != snap
+
+
 def run(ctx):
     pp = common.import_pyparsing()
     PR = pp.ParseResults
     attr_ok = lambda nm: not hasattr(PR, nm)
-    proof_ok = ctx.proof_leg("PPProofs.Props.C11", THEOREMS)
+    proof_ok = ctx.proof_leg("PPProofs.Props.C11", THEOREMS + HEAP_THEOREMS, extra_modules=("PPProofs.Props.C11Heap",))
     ctx.rule.append(
         "start objects as in C10 (real parse results of 16 grammars incl. nested groups, list-all names, int tokens; "
         "constructor calls); kinds copy()/copy.copy/deepcopy()/copy.deepcopy/pickle; frames: 1..6 own mutations (the 15 "
@@ -364,6 +415,11 @@ def run(ctx):
             ctx.fail_input("mutating a copy changes the original (or vice versa)", case, "unchanged", bad,
                            theorem="C11 frame (oracle only)")
     ctx.count_cases("fixed", nfix)
+    # ---- heap model vs real class: which probes reach the other side -----------------------------------------------
+    scases = [[k, p] for k in SHARE_KINDS for p in SHARE_PROBES]
+    slines = [sx(Sym("prshare"), k, p) for k, p in scases]
+    simpl = [dumps(bool(sharing_real(pp, k, p))) for k, p in scases]
+    d0 = ctx.correspond("sharing-table", scases, slines, simpl, outcome_of=lambda c, o: f"{c[0]}:{o}")
     # ---- (a) preserve: every kind of copy has the views of the original; model = views of the extracted state ----
     rng = ctx.subrng("preserve")
     cases, lines, impl = [], [], []
@@ -414,7 +470,7 @@ def run(ctx):
     rng = ctx.subrng("frame")
     n, kinds, nested = 0, {}, 0
     budget = ctx.budget(2500, 25000)
-    if d1 or d2 or not proof_ok:
+    if d0 or d1 or d2 or not proof_ok:
         budget *= 3        # a broken obligation / correspondence diff: search harder for a failing input
     for _ in range(budget):
         case = gen_frame_case(rng, pp, attr_ok)
@@ -443,8 +499,8 @@ def run(ctx):
         if res is not None and len(ctx.fail_inputs) < 3:
             ctx.fail_input("from_dict(d).as_dict() != d", {"dict": d}, _plain(d), res, theorem="C11 from_dict (oracle only)")
     ctx.count_cases("from_dict", n, distinct_keys=range(n), samples=[{"dict": fixed[0]}])
-    ctx.assumptions.append("C11: aliasing (frame) clauses and from_dict are decided by the oracle on the real class only; "
-                           "the Lean theorems are value level (what a copy / a concatenation *is*, not what it shares)")
+    ctx.assumptions.append("C11: the frame theorems are about the heap model of copy()/copy.copy; nested-group frames of the "
+                           "deep kinds and from_dict are decided by the oracle on the real class only")
 
 
 def replay(data):
